@@ -190,9 +190,11 @@ def run_contract_slice(ctx, specs, n, ops):
                 G = spec.lib()
             except Exception:
                 continue
-            A = np.concatenate([group_corpus(spec)[:8], spec.rand(rng, n)])
-            B = np.concatenate([group_corpus(spec)[:8][::-1], spec.rand(rng, n)])
-            X = np.concatenate([algebra_corpus(spec)[:8], spec.alg_rand(rng, n, hi=PI - 0.1, thi=10.0)])
+            # incl. elements a hair away from the identity (constant folding / tolerance-based simplifications of numeric
+            # expressions only show on this call path)
+            A = np.concatenate([group_corpus(spec)[:8], spec.rand(rng, n), spec.rand(rng, max(4, n // 3), hi=2e-3, tlo=1e-9, thi=3e-7)])
+            B = np.concatenate([group_corpus(spec)[:8][::-1], spec.rand(rng, n), spec.rand(rng, max(4, n // 3), hi=3.0, tlo=1e-9, thi=3e-7)])
+            X = np.concatenate([algebra_corpus(spec)[:8], spec.alg_rand(rng, n, hi=PI - 0.1, thi=10.0), spec.alg_rand(rng, max(4, n // 3), hi=2e-3, tlo=1e-9, thi=3e-7)])
             for k in range(len(A)):
                 try:
                     a = G.elem(ca.DM(A[k]))
